@@ -110,6 +110,8 @@ def _body_yaml(b, ind: str) -> List[str]:
 
 def file_yaml(cl, k: int) -> str:
     f = cl["files"][k]
+    if f.get("text") is not None and not f.get("imports") and not f["items"]:
+        return f["text"]               # a file without sections, given literally (comments only)
     here = os.path.dirname(f["path"])
     lines: List[str] = []
     if f.get("imports"):
@@ -686,7 +688,7 @@ def read_m(text: str, names: dict) -> dict:
 
 EXC_CODE = {"RTMASyntaxError": 10, "ExpressionExpansionError": 11, "AlignmentError": 12, "InvalidMessageSize": 13,
             "AssertionError": 14, "FileNotFoundError": 15, "DuplicateNameError": 16, "KeyError": 1, "TypeError": 2,
-            "ValueError": 6, "RuntimeError": 4}
+            "ValueError": 6, "RuntimeError": 4, "AttributeError": 5}
 
 COQ_HEADER = """From Coq Require Import ZArith List Bool String.
 From Defs Require Import Gen.TypeTables Model.Layout Model.Emit.
